@@ -291,7 +291,11 @@ func RunJobs(ctx *Ctx, jobs []Job, opt SpawnOpt) []JobOutcome {
 			}
 			var so, se bytes.Buffer
 			cmd.Stdout, cmd.Stderr = &so, &se
+			t0 := time.Now()
 			err := cmd.Run()
+			if os.Getenv("VERIF_JOBTIMES") != "" {
+				fmt.Fprintf(os.Stderr, "jobtime %s/%d %s %.1fs\n", j.Name, j.Shard, string(j.Args), time.Since(t0).Seconds())
+			}
 			o := JobOutcome{Job: j, Opt: opt, Stderr: headTail(se.String(), 3000)}
 			if opt.Race {
 				if m, _ := filepath.Glob(raceLog + ".*"); len(m) > 0 {
